@@ -37,14 +37,22 @@ FAULTS = {"one": lambda: FaultA("backend-fault"), "empty": lambda: FaultEmpty(),
 
 
 class RecordingSession(ReportingSession):
-    def __init__(self, stream, fault, names):
+    def __init__(self, stream, fault, names, plain=None):
         self.stream, self.fault, self.names = stream, fault, names
         self.count = 0
+        self.plain = plain
+        self.thmap = {}
 
     def handle(self, event):
         idx = self.count
         self.count += 1
         self.stream.append(canon_event(event, self.names))
+        if self.plain is not None:
+            # the event as Model/Events.v sees it (C18's encoding), with the controller's name of the firing thread
+            try:
+                self.plain.append([getattr(event, "_verif_thread", None), _plain_event(event, self.thmap)])
+            except Exception as e:      # noqa: BLE001
+                self.plain.append([None, ["unencodable", "%s: %s" % (type(e).__name__, e)]])
         if self.fault and self.fault["at"] == idx:
             raise FAULTS[self.fault["cls"]]()
         if self.fault and self.fault.get("again") and idx > self.fault["at"]:
@@ -52,17 +60,23 @@ class RecordingSession(ReportingSession):
             raise FaultA("second-fault-at-%d" % idx)
 
 
+def _plain_event(event, thmap):
+    from props import c18
+    return c18.plain_event(event, thmap)
+
+
 class RecordingBackend(ReportingBackend, ReportingSessionBuilderMixin):
-    def __init__(self, fault=None, names=None):
+    def __init__(self, fault=None, names=None, record_plain=False):
         self.stream = []
         self.fault = fault
         self.names = names if names is not None else {}
+        self.plain = [] if record_plain else None
 
     def get_name(self):
         return "recording"
 
     def create_reporting_session(self, report_dir, report, parallel, report_saving_strategy):
-        s = RecordingSession(self.stream, self.fault, self.names)
+        s = RecordingSession(self.stream, self.fault, self.names, self.plain)
         from lemoncheesecake import events as ev
         for cls in ev.EventManager._get_event_classes():
             setattr(s, "on_" + cls.get_name(), s.handle)
@@ -126,16 +140,18 @@ def run_case(case, watchdog=60.0):
     n = int(opts.get("nb_threads", 1))
     mode = case.get("mode", "det")
     rec = projbuild.Recorder()
+    rec.suffix = case.get("payload_suffix", "")
     tmp = tempfile.mkdtemp(prefix="lccverif_run_")
     out = {"mode": mode}
     names = {}
-    backend = RecordingBackend(case.get("fault"), names)
+    backend = RecordingBackend(case.get("fault"), names, bool(case.get("record_plain")))
     backends = [backend]
     extra = case.get("file_backends") or []
     if extra:
         from lemoncheesecake.reporting.backends import JsonBackend, XmlBackend, JunitBackend
         cls = {"json": JsonBackend, "xml": XmlBackend, "junit": JunitBackend}
-        backends = [cls[b]() for b in extra] + backends if case.get("file_first", True) else backends + [cls[b]() for b in extra]
+        mk = lambda b: JsonBackend(pretty_formatting=True) if (b == "json" and case.get("json_pretty")) else cls[b]()
+        backends = [mk(b) for b in extra] + backends if case.get("file_first", True) else backends + [mk(b) for b in extra]
     saving = make_report_saving_strategy(case["saving"]) if case.get("saving") else None
     captured = {}
     orig_build = lcc_runner.build_tasks
@@ -233,6 +249,10 @@ def run_case(case, watchdog=60.0):
         out["body_starts"] = rec.body_starts
         if report is not None:
             out["report"] = report_nf(report, names)
+            if backend.plain is not None:
+                import gen_reports_views
+                out["plain_events"] = backend.plain
+                out["report_desc"] = gen_reports_views.describe_report(report)
         if session is not None:
             out["failures"] = sorted(str(l) for l in session._failures)
         files, attachments = {}, {}
